@@ -178,6 +178,10 @@ structure St where
   parMeta : Nat := 2
   mayStartI : Bool := false            -- startInfoDownloaders ran in this op
   metaDone : Bool := false             -- completeMetadataC closed
+  unchoked : List Nat := []            -- unchoker.peersUnchoked
+  optimistic : List Nat := []          -- unchoker.peersUnchokedOptimistic
+  nUnchoke : Nat := 3
+  nOptimistic : Nat := 1
   dials : Nat := 0                     -- outgoing connection attempts seen by the harness's sink address
   banned : List String := []
   panicked : Option String := none
@@ -256,7 +260,8 @@ def St.closePeer (s : St) (k : Nat) : St :=
   | some _ =>
     let s := s.closeDl k
     let s := { s with peers := s.peers.filter (·.k ≠ k), mayStart := s.mayStart.filter (· ≠ k),
-                      idls := s.idls.filter (·.k ≠ k) }
+                      idls := s.idls.filter (·.k ≠ k),
+                      unchoked := s.unchoked.filter (· ≠ k), optimistic := s.optimistic.filter (· ≠ k) }
     s.startDls
 
 def St.writeBitfield (s : St) : St :=
@@ -491,7 +496,17 @@ def handlePeerMessage (m : M) (k : Nat) (msg : Msg) : M :=
       else
         let m := onSt m fun s => { s with dls := s.dls.map fun x => if x.k = k then { x with choked := true, snub := false } else x }
         onSt m (·.startDls)
-  | .interested => onSt m (·.updPeer k fun p => { p with peerInterested := true })
+  | .interested =>
+    -- pe.PeerInterested = true; unchoker.FastUnchoke(pe)
+    let m := onSt m (·.updPeer k fun p => { p with peerInterested := true })
+    match m.1.findPeer k with
+    | none => m
+    | some p =>
+      if p.clientChoking && m.1.unchoked.length < m.1.nUnchoke then
+        send (onSt m fun s => { (s.updPeer k fun p => { p with clientChoking := false }) with unchoked := s.unchoked ++ [k] }) k "unchoke"
+      else if p.clientChoking && m.1.optimistic.length < m.1.nOptimistic then
+        send (onSt m fun s => { (s.updPeer k fun p => { p with clientChoking := false }) with optimistic := s.optimistic ++ [k] }) k "unchoke"
+      else m
   | .notInterested => onSt m (·.updPeer k fun p => { p with peerInterested := false })
   | .request i b l =>
     if !ready then closePeerM m k
